@@ -230,6 +230,15 @@ func c11Bundle(r *fw.Rand) (*ref.Bundle, []*ref.Msg) {
 		main.Body[len(main.Body)-3] = &ref.Special{Name: "lb"}
 		main.Body[len(main.Body)-1] = &ref.Special{Name: "rb"}
 	}
+	if r.Bool() {
+		// messages in branches: one branch is not taken at run time, yet its message is in the catalogue like any other
+		cond := &ref.Binary{Op: "==", L: &ref.DataRef{Name: "a"}, R: &ref.Lit{V: ref.Int(int64(r.Intn(2) * 7))}}
+		iff := &ref.If{Conds: []ref.Expr{cond}, Bodies: [][]ref.Node{{&ref.Raw{Text: "then:"}, mk()}}}
+		if r.Bool() {
+			iff.HasElse, iff.Else = true, []ref.Node{&ref.Raw{Text: "else:"}, mk()}
+		}
+		main.Body = append(main.Body, iff, &ref.Raw{Text: "after:"}, mk())
+	}
 	if r.P(2, 3) {
 		// a twin of the first message: same text and placeholder names (hence the same id and one catalogue
 		// entry), but its placeholders stand for other expressions ($s <-> $m.s, $a <-> $m.a, $t <-> $s + 'x')
